@@ -126,6 +126,24 @@ def seg_ops(ck, rnd, matrices, quick):
                 # non-uniform scaling of an arc must be refused, never silently wrong: if it is accepted it must be right
                 commute(ck, seg, new, lambda p: complex(sx * (p.real - origin.real) + origin.real, sy * (p.imag - origin.imag) + origin.imag),
                         'scaled(%r, %r) accepted on an Arc' % (sx, sy), {'seg': repr(seg), 'op': 'scaled2', 'sx': sx, 'sy': sy}, 1e-6, 'scale/Arc-nonuniform')
+        # matrices that are *almost* the identity (no shortcut may swallow them) and tiny / huge ones
+        for Mx in ([1.000009, 0, 0, 0.999992, 0, 0], [1, 0, 0, 1, 1e-9, -1e-9], [1, 1e-7, 0, 1, 0, 0], [1e-6, 0, 0, 1e-6, 0, 0], [0, 1e5, -1e5, 0, 3, 4]):
+            ck.case(fp=('transform-special', si, tuple(Mx)), nontrivial=True)
+            try:
+                new = sp.path.transform(seg, mat(Mx))
+            except Exception as e:      # noqa
+                ck.disagree(key='transform/%s/raises-%s' % (name, type(e).__name__), site='svgpathtools/path.py:transform', what='transform(%r, %s) raised %r' % (seg, Mx, e),
+                            case={'seg': repr(seg), 'M': Mx}, expected='segment', observed=repr(e), driver='transform')
+                continue
+            # compare the displacement image - original, so that a relative 1e-5 change is visible against coordinates of size 10
+            size = max(abs(app(Mx, seg.point(t))) for t in TS) + 1e-300
+            for t in TS:
+                exp = app(Mx, seg.point(t))
+                if not (abs(new.point(t) - exp) <= (1e-13 if isbez else 1e-7) * size + 1e-15):
+                    ck.disagree(key='transform/%s/near-identity-or-extreme-matrix' % name, site='svgpathtools/path.py:transform',
+                                what='transform(%r, %s).point(%r) = %r, M(point) = %r' % (seg, Mx, t, new.point(t), exp), case={'seg': repr(seg), 'M': Mx},
+                                expected=repr(exp), observed=repr(new.point(t)), driver='transform')
+                    break
         # transform by every model matrix
         for mi, c in enumerate(matrices):
             if not isbez and quick and mi % 3:
@@ -214,6 +232,9 @@ def path_ops(ck, rnd, quick):
         for kinds in (['L'], ['L', 'C', 'Q'], ['C', 'A', 'L', 'Q']) if not (len(joined) == 1 and joined[0]) else (['C'], ['Q']):
             for rep in range(1 if quick else 4):
                 path = build_path(joined, rnd, kinds)
+                if rep % 2 == 0:
+                    path.length()           # a source path that has been measured before it is transformed
+                    path.point(0.3)
                 has_arc = any(isinstance(s, sp.Arc) for s in path)
                 for what, f in ops + ([] if has_arc else bez_only):
                     ck.case(fp=('path', tuple(joined), tuple(kinds), what, rep), nontrivial=any(joined))
@@ -222,6 +243,19 @@ def path_ops(ck, rnd, quick):
                     except Exception as e:      # noqa
                         ck.disagree(key='path-op/raises-%s' % type(e).__name__, site='svgpathtools/path.py', what='%s raised %r on %r' % (what, e, path),
                                     case={'joined': joined, 'op': what}, expected='path', observed=repr(e), driver='joints')
+                        continue
+                    # the result must answer like a Path freshly built from its own segments (nothing cached on the source may leak into it)
+                    try:
+                        fr_ = sp.Path(*list(new))
+                        lf = fr_.length()
+                        okc = abs(new.length() - lf) <= 1e-9 * max(1.0, lf) and new.start == fr_.start and new.end == fr_.end
+                        for T in (0.2, 0.5, 0.83):
+                            okc = okc and abs(new.point(T) - fr_.point(T)) <= 1e-9 * (abs(fr_.point(T)) + 1) and new.T2t(T)[0] == fr_.T2t(T)[0]
+                    except Exception as e:      # noqa
+                        okc = False
+                    if not okc:
+                        ck.disagree(key='path-op/result-differs-from-fresh-path', site='svgpathtools/path.py', what='%s: the returned path does not answer like Path(*its segments)' % what,
+                                    case={'joined': joined, 'op': what, 'path': repr(path)}, expected='fresh answers', observed='differs', driver='joints')
                         continue
                     if len(new) != len(path):
                         ck.disagree(key='path-op/segment-count', site='svgpathtools/path.py', what='%s changed the number of segments' % what,
